@@ -57,6 +57,7 @@ class Assembly:
         self._src = {}
         self.degrade = False   # second attempt after a lost anchor: drop the annotations whose anchor is gone
         self.degraded = []     # what was dropped
+        self.degraded_hint_lost = False   # True once a proof annotation (not just a call-shape rewrite) was dropped
 
     def src(self, rel):
         if rel not in self._src:
@@ -360,6 +361,9 @@ def process_fn(asm, header_line, block, tmpl_line):
         if c != n:
             if asm.degrade and c == 0:
                 asm.degraded.append('%s::%s: substitution %s %r not applied (text no longer present)' % (container, name, r, old))
+                # a call-shape rewrite (R4/R11/R12/R13) whose text is absent leaves nothing to rewrite: the emitted
+                # body is still exactly the source; only R1/R2/R8 substitutions carry proof annotations
+                asm.degraded_hint_lost = asm.degraded_hint_lost or r in ('R1', 'R2', 'R8')
                 continue
             raise ScanError('lost anchor: %s::%s body: %r occurs %d times (need %d)' % (container, name, old, c, n))
         if old.count('\n') != new.count('\n'):
@@ -379,7 +383,7 @@ def process_fn(asm, header_line, block, tmpl_line):
                 rec.setdefault('missing_optional', []).append(snip)
                 continue
             if asm.degrade and ((nth is None and len(cands) != 1) or (nth is not None and nth >= len(cands))):
-                asm.degraded.append('%s::%s: loop annotations for %r not inserted (loop not found)' % (container, name, snip))
+                asm.degraded.append('%s::%s: loop annotations for %r not inserted (loop not found)' % (container, name, snip)); asm.degraded_hint_lost = True
                 continue
             if nth is None and len(cands) != 1:
                 raise ScanError('lost anchor: %s::%s: loop header %r matches %d loops' % (container, name, snip, len(cands)))
@@ -407,7 +411,7 @@ def process_fn(asm, header_line, block, tmpl_line):
             k = _find_nth(body, snip, nth, '%s::%s ghost' % (container, name))
         except ScanError:
             if asm.degrade:
-                asm.degraded.append('%s::%s: ghost block at %r not inserted (anchor not found)' % (container, name, snip))
+                asm.degraded.append('%s::%s: ghost block at %r not inserted (anchor not found)' % (container, name, snip)); asm.degraded_hint_lost = True
                 continue
             raise
         pos = k + len(snip) if where == 'after' else k
